@@ -4,7 +4,7 @@ from vlib.cfg import Cfg, DefUse, Slice, ref_chain
 from vlib.cond import switch_cond, bool_edges, variant_edge
 from vlib.facts import AnchorMissing
 
-WORKER = "server::listen::{closure#1}"
+from .roles import listen_worker, pool_worker
 POOLW = "server::Worker::new::{closure#0}"
 INTERIOR = ("Cell<", "RefCell<", "Mutex<", "RwLock<", "Atomic", "UnsafeCell<", "OnceCell<", "OnceLock<", "LazyLock<", "mpsc::", "Condvar")
 
@@ -44,7 +44,7 @@ def run(cx):
 
 def r1(cx):
     listen = cx.mir.one("varlink", "server::listen")
-    w = cx.mir.one("varlink", WORKER)
+    w = listen_worker(cx)
     cx.saw(listen); cx.saw(w)
     aggs = [s for s in listen.stmts() if s.kind == "assign" and s.rv == "agg" and isinstance(s.agg, dict) and s.agg.get("closure", "").endswith("{closure#1}")]
     if len(aggs) != 1: raise AnchorMissing("listen: worker closure aggregate")
@@ -113,7 +113,7 @@ def guards_alive_at(body, cfg, du, target_bb):
 
 
 def r3(cx):
-    pw = cx.mir.one("varlink", POOLW)
+    pw = pool_worker(cx)
     cx.saw(pw)
     cfg = Cfg(pw); du = DefUse(pw)
     jobs = pw.calls("=call_box") or [t for t in pw.calls() if t.callee.indirect]
@@ -129,13 +129,13 @@ def r3(cx):
     held = guards_alive_at(ls, lcfg, ldu, acc[0].bb)
     cx.check(not held, "C13.R3", "varlink:listen:no-lock-across-accept", "%s %s" % (acc[0].sp, ls.path), "the acceptor holds a lock while waiting for connections", note_ok="no guard alive at accept()")
     # the worker closure itself takes no lock at all
-    w = cx.mir.one("varlink", WORKER)
+    w = listen_worker(cx)
     locks = [t for t in w.calls("=lock", "=write", "=read") if "Mutex" in t.callee.path or "RwLock" in t.callee.path]
     cx.check(not locks, "C13.R3", "varlink:worker:takes-no-lock", w.sp, "the per-connection job takes a lock (%s)" % [t.sp for t in locks], note_ok="lock-free")
 
 
 def r4(cx):
-    w = cx.mir.one("varlink", WORKER)
+    w = listen_worker(cx)
     cfg = Cfg(w); du = DefUse(w)
     hs = [t for t in w.calls("=handle") if "ConnectionHandler" in t.callee.path]
     splits = w.calls("=split")
@@ -217,7 +217,7 @@ def r4(cx):
 def r5(cx):
     from .C14 import counter_ops
     n = 0
-    wk = cx.mir.one("varlink", POOLW)
+    wk = pool_worker(cx)
     for b in cx.mir.bodies("varlink"):
         if b.promoted is not None or "server.rs" not in b.sp: continue
         du = DefUse(b)
